@@ -9,6 +9,11 @@ Definition lift (v : Z) (cs : G * occ) : G * occ := (fst cs, v :: snd cs).
 #[global] Instance lift_Proper v : Proper (peq ==> peq) (lift v).
 Proof. intros [c s] [c' s'] [H1 H2]; split; cbn in *; congruence. Qed.
 
+#[global] Instance fst_peq_Proper : Proper (peq ==> geq) (@fst G occ).
+Proof. intros a b [H _]; exact H. Qed.
+#[global] Instance snd_peq_Proper : Proper (peq ==> eq) (@snd G occ).
+Proof. intros a b [_ H]; exact H. Qed.
+
 Lemma pscale_pscale a b cs : peq (pscale a (pscale b cs)) (pscale (gmul a b) cs).
 Proof. destruct cs; split; cbn; [ring|reflexivity]. Qed.
 Lemma pscale_1 cs : peq (pscale g1 cs) cs.
@@ -341,12 +346,12 @@ Proof.
     cbn [ws omid osub]. fold vm.
     destruct (Z.ltb_spec q 0) as [Hq|Hq].
     + rewrite HIn.
-      unfold papp, pscale, lift. cbn [fst snd].
-      rewrite opact_cons_O.
+      unfold lift, pscale. cbn [fst snd]. unfold papp. cbn [fst snd].
+      rewrite opact_cons_O. unfold pscale. cbn [fst snd].
       assert (vm = v) by (subst vm; lia).
       assert (HwA : wA = g1) by (subst wA; destruct (Z.ltb_spec 0 q); [lia|reflexivity]).
       split; cbn [fst snd]; [|f_equal; lia].
-      rewrite <- Hsgn, HwA. rewrite H at 3. ring.
+      rewrite <- Hsgn, HwA. replace (wloc k q vm) with (wloc k q v) by (rewrite H; reflexivity). ring.
     + rewrite HIn.
       split; unfold pscale, lift; cbn [fst snd]; [|f_equal; subst vm; lia].
       rewrite <- Hsgn.
